@@ -236,4 +236,184 @@ theorem Matches.transport {re : Re} {p q : Pos} (h : Matches re p q) :
     rw [this] at m2
     exact .plus m1 m2
 
+/-! ## rune boundaries and line feeds -/
+
+/-- the position after a line feed is always a rune boundary: decoding never swallows a line feed
+into a multi-byte sequence -/
+theorem runeReach_LF : ∀ (k : Nat) (u t : Bytes) (p : Pos), u.length ≤ k → p.after = u ++ LF :: t →
+    RuneReach p (p.advance (u.length + 1)) := by
+  intro k
+  induction k with
+  | zero =>
+    intro u t p hk h
+    have : u = [] := List.length_eq_zero_iff.mp (by omega)
+    subst this
+    have hd : decodeRune p.after = some (10, 1) := by rw [h]; simp [decodeRune, LF_toNat]
+    exact .step hd (.refl _)
+  | succ k ih =>
+    intro u t p hk h
+    by_cases hu : u = []
+    · subst hu
+      have hd : decodeRune p.after = some (10, 1) := by rw [h]; simp [decodeRune, LF_toNat]
+      exact .step hd (.refl _)
+    · cases hd : decodeRune u with
+      | none => exact absurd (decodeRune_eq_none hd) hu
+      | some rw =>
+        obtain ⟨r, w⟩ := rw
+        have hw := decodeRune_width hd
+        have hd' : decodeRune p.after = some (r, w) := by
+          rw [h, decodeRune_append_LF u t hu]; exact hd
+        have hwp : w ≤ p.after.length := by rw [h, List.length_append]; omega
+        have hafter : (p.advance w).after = u.drop w ++ LF :: t := by
+          rw [Pos.advance_after, h, List.drop_append_of_le_length hw.2]
+        have := ih (u.drop w) t (p.advance w) (by rw [List.length_drop]; omega) hafter
+        rw [Pos.advance_advance _ _ _ hwp, List.length_drop] at this
+        have e : w + (u.length - w + 1) = u.length + 1 := by omega
+        rw [e] at this
+        exact .step hd' this
+
+/-! ## lines of a text -/
+
+theorem splitLF_spec (s : Bytes) : ∀ l0 ls, splitLF s = l0 :: ls →
+    ((∀ b ∈ l0, b ≠ LF) ∧ ∃ post, s = l0 ++ post ∧ LFish post) ∧
+    (∀ l ∈ ls, ∃ pre' post, s = pre' ++ LF :: (l ++ post) ∧ (∀ b ∈ l, b ≠ LF) ∧ LFish post) := by
+  induction s with
+  | nil =>
+    intro l0 ls h
+    simp only [splitLF, List.cons.injEq] at h
+    obtain ⟨rfl, rfl⟩ := h
+    exact ⟨⟨by simp, [], rfl, .inl rfl⟩, by simp⟩
+  | cons b t ih =>
+    intro l0 ls h
+    cases hst : splitLF t with
+    | nil => exact absurd hst (splitLF_ne_nil' t)
+    | cons m ms =>
+      obtain ⟨⟨hm, postm, htm, hpm⟩, htail⟩ := ih m ms hst
+      simp only [splitLF, hst] at h
+      by_cases hb : b = LF
+      · subst hb
+        simp only [beq_self_eq_true, if_true, List.cons.injEq] at h
+        obtain ⟨rfl, rfl⟩ := h
+        refine ⟨⟨by simp, LF :: t, rfl, .inr ⟨t, rfl⟩⟩, ?_⟩
+        intro l hl
+        rcases List.mem_cons.mp hl with rfl | hl
+        · exact ⟨[], postm, by rw [htm]; rfl, hm, hpm⟩
+        · obtain ⟨pre', post, hs, hl', hp⟩ := htail l hl
+          exact ⟨LF :: pre', post, by rw [hs]; rfl, hl', hp⟩
+      · have hb' : (b == LF) = false := by simpa using hb
+        simp only [hb', Bool.false_eq_true, if_false, List.cons.injEq] at h
+        obtain ⟨rfl, rfl⟩ := h
+        refine ⟨⟨?_, postm, by rw [htm]; rfl, hpm⟩, ?_⟩
+        · intro x hx
+          rcases List.mem_cons.mp hx with rfl | hx
+          · exact hb
+          · exact hm x hx
+        · intro l hl
+          obtain ⟨pre', post, hs, hl', hp⟩ := htail l hl
+          exact ⟨b :: pre', post, by rw [hs]; rfl, hl', hp⟩
+
+/-- every line of a text is delimited by line feeds / the text ends and contains no line feed -/
+theorem splitLF_mem {s l : Bytes} (h : l ∈ splitLF s) :
+    ∃ pre post, s = pre ++ l ++ post ∧ (∀ b ∈ l, b ≠ LF) ∧
+      (pre = [] ∨ ∃ pre', pre = pre' ++ [LF]) ∧ LFish post := by
+  cases hs : splitLF s with
+  | nil => exact absurd hs (splitLF_ne_nil' s)
+  | cons l0 ls =>
+    obtain ⟨⟨h0, post0, hs0, hp0⟩, htail⟩ := splitLF_spec s l0 ls hs
+    rw [hs] at h
+    rcases List.mem_cons.mp h with rfl | h
+    · exact ⟨[], post0, by simpa using hs0, h0, .inl rfl, hp0⟩
+    · obtain ⟨pre', post, hs', hl, hp⟩ := htail l h
+      exact ⟨pre' ++ [LF], post, by rw [hs']; simp, hl, .inr ⟨pre', rfl⟩, hp⟩
+
+/-! ## line patterns are line-local -/
+
+theorem Pos.atBol_iff (p : Pos) : p.atBol = true ↔ LFish p.before := by
+  unfold Pos.atBol LFish
+  cases p.before with
+  | nil => simp
+  | cons b t => simp
+
+theorem Pos.atEol_iff (p : Pos) : p.atEol = true ↔ LFish p.after := by
+  unfold Pos.atEol LFish
+  cases p.after with
+  | nil => simp
+  | cons b t => simp
+
+theorem LFish.reverse {l : Bytes} (h : LFish l) : l.reverse = [] ∨ ∃ t, l.reverse = t ++ [LF] := by
+  rcases h with rfl | ⟨t, rfl⟩
+  · left; rfl
+  · right; exact ⟨t.reverse, by simp⟩
+
+theorem LFish.of_reverse {l : Bytes} (h : l = [] ∨ ∃ t, l = t ++ [LF]) : LFish l.reverse := by
+  rcases h with rfl | ⟨t, rfl⟩
+  · left; rfl
+  · right; exact ⟨t.reverse, by simp⟩
+
+/-- **`isMatch` of a line pattern is line-local.** For `(?m)^body$` where `body` cannot consume a
+line feed and has no text anchors, the pattern matches a text iff it matches one of its lines
+(taken alone). -/
+theorem isMatch_line_iff {body : Re} (hn : body.noLF = true) (hna : body.noTextAnchor = true)
+    (s : Bytes) :
+    isMatch (.cat .bol (.cat body .eol)) s = true ↔
+      ∃ l ∈ splitLF s, isMatch (.cat .bol (.cat body .eol)) l = true := by
+  have hna' : (Re.cat .bol (.cat body .eol)).noTextAnchor = true := by
+    simp [Re.noTextAnchor, hna]
+  constructor
+  · intro h
+    obtain ⟨p, q, _, hp, _, hM⟩ := isMatch_sound h
+    obtain ⟨hbol, heol, hlf⟩ := hM.line hn
+    obtain ⟨hq, hnle⟩ := hM.eq_advance
+    have hspan : p.span q = p.after.take (q.off - p.off) := rfl
+    have hlen : (p.span q).length = q.off - p.off := by
+      rw [hspan, List.length_take]; omega
+    have hqa : q.after = p.after.drop (q.off - p.off) := by
+      rw [hq, Pos.advance_after]
+      have := hM.off_le
+      rw [Pos.advance_off _ _ hnle]
+      congr 1; omega
+    have e : Ext (p.span q) [] p :=
+      ⟨⟨q.after, by rw [hspan, hqa, List.take_append_drop], (Pos.atEol_iff q).mp heol⟩,
+       ⟨p.before, by simp, (Pos.atBol_iff p).mp hbol⟩⟩
+    have e' : Ext (p.span q) [] (Pos.start (p.span q)) :=
+      ⟨⟨[], by simp [Pos.start], .inl rfl⟩, ⟨[], rfl, .inl rfl⟩⟩
+    have hM' := hM.transport hna' e e' (by omega)
+    refine ⟨p.span q, ?_, isMatch_complete (.refl _) hM'⟩
+    have hs : s = p.before.reverse ++ p.span q ++ q.after := by
+      rw [hspan, hqa, List.append_assoc, List.take_append_drop]; exact hp.1.symm
+    rw [hs]
+    exact mem_splitLF_of_delimited hlf ((Pos.atBol_iff p).mp hbol).reverse
+      ((Pos.atEol_iff q).mp heol)
+  · rintro ⟨l, hmem, h⟩
+    obtain ⟨pre, post, hs, hl, hpre, hpost⟩ := splitLF_mem hmem
+    obtain ⟨p', q', _, hp', _, hM'⟩ := isMatch_sound h
+    obtain ⟨hbol, _, _⟩ := hM'.line hn
+    have hb' : p'.before = [] := by
+      rcases (Pos.atBol_iff p').mp hbol with h0 | ⟨t, h0⟩
+      · exact h0
+      · exfalso
+        have : LF ∈ l := by rw [← hp'.1, h0]; simp
+        exact hl LF this rfl
+    have ha' : p'.after = l := by have := hp'.1; rw [hb'] at this; simpa using this
+    have e' : Ext l [] p' := ⟨⟨[], by simp [ha'], .inl rfl⟩, ⟨[], by simp [hb'], .inl rfl⟩⟩
+    have hpa : ((Pos.start s).advance pre.length).after = l ++ post := by
+      rw [Pos.advance_after]
+      simp only [Pos.start]
+      rw [hs, List.append_assoc, List.drop_left]
+    have hpb : ((Pos.start s).advance pre.length).before = pre.reverse := by
+      rw [Pos.advance_before]
+      simp only [Pos.start, List.append_nil]
+      rw [hs, List.append_assoc, List.take_left]
+    have e : Ext l [] ((Pos.start s).advance pre.length) :=
+      ⟨⟨post, hpa, hpost⟩, ⟨pre.reverse, by simp [hpb], LFish.of_reverse hpre⟩⟩
+    have hle : q'.off - p'.off ≤ l.length := by rw [← ha']; exact hM'.eq_advance.2
+    have hM := hM'.transport hna' e' e hle
+    have hr : RuneReach (Pos.start s) ((Pos.start s).advance pre.length) := by
+      rcases hpre with rfl | ⟨pre', rfl⟩
+      · exact .refl _
+      · have := runeReach_LF pre'.length pre' (l ++ post) (Pos.start s) (Nat.le_refl _)
+          (by simp [Pos.start, hs])
+        simpa using this
+    exact isMatch_complete hr hM
+
 end Scrapli.Rx
